@@ -1,5 +1,5 @@
 CHECKS = [
-    entry("C07", "collector",
+    entry("C07", "collector", crashcap=True,
           technique="property-based testing (rapid): generated buffer contents and ejection points on the real collector under virtual time; dominance/sufficiency/minimality oracle",
           quick=dict(checks=700, budget_s=70),
           thorough=dict(checks=8000, shards=16, budget_s=540),
